@@ -371,13 +371,23 @@ def roundHalfEven (q : Rat) : Int :=
 /-- `np.round(gb * 1024**3).astype(int)` -/
 def bytesOfGb (gb : Rat) : Int := roundHalfEven (gb * 1073741824)
 
+/-- `max(100, load_chunk_size)` of `_calculate_csr_indptr` -/
+def minCountChunk : Nat := 100
+/-- `max(100, load_chunk_size)` of `transpose_sparse_matrix_on_disk` -/
+def minLoadChunk : Nat := 100
+/-- `max(100, elements_at_a_time)` -/
+def minElements : Nat := 100
+/-- `dex_bytes = 8` -/
+def dexBytes : Nat := 8
+
 /-- the integer part of the budget arithmetic of
 `transpose_sparse_matrix_on_disk` / `_calculate_csr_indptr`; `countGb`,
 `loadGb`, `elGb` are the floats `0.8*max_gb`, `that/3`, `that - that/3` -/
 def Budget.of (countGb loadGb elGb : Rat) (dataBytes indptrBytes indicesBytes : Nat) : Budget :=
-  { loCount := max 100 ((bytesOfGb countGb / (indicesBytes : Int)) / 2).toNat
-    lo := max 100 (bytesOfGb loadGb / ((dataBytes + indptrBytes + indicesBytes + 8 : Nat) : Int)).toNat
-    el := max 100 (bytesOfGb elGb / ((dataBytes + max indicesBytes indptrBytes : Nat) : Int)).toNat }
+  { loCount := max minCountChunk ((bytesOfGb countGb / (indicesBytes : Int)) / 2).toNat
+    lo := max minLoadChunk
+      (bytesOfGb loadGb / ((dataBytes + indptrBytes + indicesBytes + dexBytes : Nat) : Int)).toNat
+    el := max minElements (bytesOfGb elGb / ((dataBytes + max indicesBytes indptrBytes : Nat) : Int)).toNat }
 
 /-- `transpose_sparse_matrix_on_disk(indices, indptr, data, indices_max, …,
 indices_slice)`; the result is `(indptr, indices, data)` of the output file -/
